@@ -2,9 +2,9 @@ SPECIFICATION Spec
 CONSTANTS
   Node = {n1, n2, n3}
   MaxTerm = 2
-  MaxLog = 3
+  MaxLog = 4
   NonCmdKinds = {}
-  WarmStart = FALSE
+  WarmStart = TRUE
   UpgradeStrong = TRUE
   VerifyQuorum = TRUE
   RecheckTerm = TRUE
